@@ -7,6 +7,10 @@ import ClarabelProofs.Lemmas.ConesNN
 import ClarabelProofs.Lemmas.ConesSoc
 import ClarabelProofs.Lemmas.ConesBacktrack
 import ClarabelProofs.Lemmas.ConesComposite
+import ClarabelProofs.Lemmas.ConesNonsymStep
+import ClarabelProofs.Lemmas.ConesPsdStep
+import ClarabelProofs.Lemmas.ConesCompositePsd
+import ClarabelProofs.Lemmas.ConesNonsymConvex
 
 namespace Clarabel.C15
 open Clarabel
@@ -277,5 +281,545 @@ theorem zero_shift {α : Type} [OfNat α 0] (z : Array α) (a : α) :
   · rfl
 
 end Margins
+
+/-! ## Round 3: nonsymmetric cones (exp / pow / genpow) -/
+section NonsymStep
+open Backtrack Nonsym
+
+/-- [S] (every scalar type, `Float` included) `ExponentialCone::step_length`, i.e. two runs of
+`backtrack_search` from `αmax` — `αz` on the dual predicate at `z + α·dz`, `αs` on the primal
+predicate at `s + α·ds`.  Each returned `α` is a `StepOutcome`: `n` candidates `αmax·stepʲ`
+(`j < n`) were rejected while the next one was still `≥ αmin`, then either candidate `n` was
+accepted by the predicate and is returned, or it was rejected, the next is `< αmin`, and
+`0` is returned. -/
+theorem exp_step_outcome {β : Type} [Add β] [Sub β] [Mul β] [Div β] [Neg β] [LT β] [LE β]
+    [DecidableLT β] [DecidableLE β] [OfNat β 0] [OfNat β 1] [FloatLike β]
+    (dz ds z s : V3 β) (step amin amax : β) (fuel : Nat) (az as : β)
+    (h : Exp.stepLength dz ds z s step amin amax fuel = .ok (az, as)) :
+    StepOutcome (v3toArray z) (v3toArray dz) amax amin step Exp.inDual az ∧
+    StepOutcome (v3toArray s) (v3toArray ds) amax amin step Exp.inPrimal as :=
+  Exp.stepLength_outcome dz ds z s step amin amax fuel az as h
+
+/-- [S] the same for `PowerCone::step_length` (exponent `a`). -/
+theorem pow_step_outcome {β : Type} [Add β] [Sub β] [Mul β] [Div β] [Neg β] [LT β] [LE β]
+    [DecidableLT β] [DecidableLE β] [OfNat β 0] [OfNat β 1] [OfNat β 2] [FloatLike β]
+    (a : β) (dz ds z s : V3 β) (step amin amax : β) (fuel : Nat) (az as : β)
+    (h : Pow.stepLength a dz ds z s step amin amax fuel = .ok (az, as)) :
+    StepOutcome (v3toArray z) (v3toArray dz) amax amin step (Pow.inDual a) az ∧
+    StepOutcome (v3toArray s) (v3toArray ds) amax amin step (Pow.inPrimal a) as :=
+  Pow.stepLength_outcome a dz ds z s step amin amax fuel az as h
+
+/-- [S] the same for `GenPowerCone::step_length` (exponents `al`, any dimension). -/
+theorem genpow_step_outcome {β : Type} [Add β] [Sub β] [Mul β] [Div β] [Neg β] [LT β] [LE β]
+    [DecidableLT β] [DecidableLE β] [OfNat β 0] [OfNat β 1] [OfNat β 2] [FloatLike β]
+    (al dz ds z s : Array β) (step amin amax : β) (fuel : Nat) (az as : β)
+    (h : GenPow.stepLength al dz ds z s step amin amax fuel = .ok (az, as)) :
+    StepOutcome z dz amax amin step (GenPow.inDual al) az ∧
+    StepOutcome s ds amax amin step (GenPow.inPrimal al) as :=
+  GenPow.stepLength_outcome al dz ds z s step amin amax fuel az as h
+
+/-- [S] safety of a back-tracking outcome: the returned `α` is the failure value `0` or the
+cone's feasibility predicate holds at `q + α·dq` (the work vector `waxpby(1, q, α, dq)`). -/
+theorem nonsym_step_accepted_or_zero {β : Type} [Add β] [Mul β] [OfNat β 0] [OfNat β 1] [LT β]
+    [DecidableLT β] {q dq : Array β} {amax amin step : β} {P : Array β → Bool} {r : β}
+    (h : StepOutcome q dq amax amin step P r) : P (candidate q dq r) = true ∨ r = 0 :=
+  h.accepted
+
+/-- [S] tightness of a back-tracking outcome: either the initial candidate `αmax` itself was
+accepted, or there is a *rejected* candidate `c` with `r = c·step` accepted (so `r` is within
+one back-tracking factor of an infeasible step), or `r = 0` and `c·step < αmin`. -/
+theorem nonsym_step_tight {β : Type} [Add β] [Mul β] [OfNat β 0] [OfNat β 1] [LT β]
+    [DecidableLT β] {q dq : Array β} {amax amin step : β} {P : Array β → Bool} {r : β}
+    (h : StepOutcome q dq amax amin step P r) :
+    (r = amax ∧ P (candidate q dq amax) = true) ∨
+    (∃ c, P (candidate q dq c) = false ∧
+      ((r = c * step ∧ ¬ (c * step < amin) ∧ P (candidate q dq r) = true) ∨
+       (r = 0 ∧ c * step < amin))) :=
+  h.tight
+
+/-- [F] a back-tracking outcome never exceeds `αmax` (and is `≥ 0`) when `0 ≤ step ≤ 1`,
+`αmax ≥ 0`. -/
+theorem nonsym_step_bounds {β : Type} [Field β] [LinearOrder β] [IsStrictOrderedRing β]
+    {q dq : Array β} {amax amin step : β} {P : Array β → Bool} {r : β}
+    (h : StepOutcome q dq amax amin step P r) (ha : 0 ≤ amax) (hs0 : 0 ≤ step) (hs1 : step ≤ 1) :
+    0 ≤ r ∧ r ≤ amax :=
+  h.bounds ha hs0 hs1
+
+/-- non-vacuity of the three theorems above: an accepted first candidate. -/
+example : StepOutcome (#[1] : Array ℝ) #[0] 1 (1 / 10000) (4 / 5) (fun w => decide (0 < w.getD 0 0)) 1 :=
+  ⟨0, fun j hj => absurd hj (Nat.not_lt_zero _), Or.inl ⟨rfl, by simp [candidate, Vec.waxpby]⟩⟩
+
+/-- [R] exponential cone: with C14's membership theorems, after `step_length` the dual point
+`z + αz·dz` lies in the open dual cone `int K*` and the primal point `s + αs·ds` in `int K`
+themselves (not only in the model predicate), unless the failure value `0` was returned; and
+`0 ≤ αz, αs ≤ αmax`. -/
+theorem exp_step_in_cone (dz ds z s : V3 ℝ) (step amin amax : ℝ) (fuel : Nat) (az as : ℝ)
+    (h : Exp.stepLength dz ds z s step amin amax fuel = .ok (az, as))
+    (ha : 0 ≤ amax) (hs0 : 0 ≤ step) (hs1 : step ≤ 1) :
+    (az = 0 ∨ C14.ExpDualInterior (z.1 + az * dz.1) (z.2.1 + az * dz.2.1) (z.2.2 + az * dz.2.2)) ∧
+    (as = 0 ∨ C14.ExpPrimalInterior (s.1 + as * ds.1) (s.2.1 + as * ds.2.1) (s.2.2 + as * ds.2.2)) ∧
+    0 ≤ az ∧ az ≤ amax ∧ 0 ≤ as ∧ as ≤ amax := by
+  obtain ⟨h1, h2⟩ := Exp.stepLength_outcome dz ds z s step amin amax fuel az as h
+  obtain ⟨b1, b2⟩ := h1.bounds ha hs0 hs1
+  obtain ⟨b3, b4⟩ := h2.bounds ha hs0 hs1
+  refine ⟨?_, ?_, b1, b2, b3, b4⟩
+  · rcases h1.accepted with hp | h0
+    · exact Or.inr (Exp.inDual_candidate z dz az hp)
+    · exact Or.inl h0
+  · rcases h2.accepted with hp | h0
+    · exact Or.inr (Exp.inPrimal_candidate s ds as hp)
+    · exact Or.inl h0
+
+/-- [R] power cone (`0 < a < 1`): the same statement. -/
+theorem pow_step_in_cone {a : ℝ} (ha0 : 0 < a) (ha1 : a < 1) (dz ds z s : V3 ℝ)
+    (step amin amax : ℝ) (fuel : Nat) (az as : ℝ)
+    (h : Pow.stepLength a dz ds z s step amin amax fuel = .ok (az, as))
+    (ha : 0 ≤ amax) (hs0 : 0 ≤ step) (hs1 : step ≤ 1) :
+    (az = 0 ∨ C14.PowDualInterior a (z.1 + az * dz.1) (z.2.1 + az * dz.2.1) (z.2.2 + az * dz.2.2)) ∧
+    (as = 0 ∨ C14.PowPrimalInterior a (s.1 + as * ds.1) (s.2.1 + as * ds.2.1) (s.2.2 + as * ds.2.2)) ∧
+    0 ≤ az ∧ az ≤ amax ∧ 0 ≤ as ∧ as ≤ amax := by
+  obtain ⟨h1, h2⟩ := Pow.stepLength_outcome a dz ds z s step amin amax fuel az as h
+  obtain ⟨b1, b2⟩ := h1.bounds ha hs0 hs1
+  obtain ⟨b3, b4⟩ := h2.bounds ha hs0 hs1
+  refine ⟨?_, ?_, b1, b2, b3, b4⟩
+  · rcases h1.accepted with hp | h0
+    · exact Or.inr (Pow.inDual_candidate ha0 ha1 z dz az hp)
+    · exact Or.inl h0
+  · rcases h2.accepted with hp | h0
+    · exact Or.inr (Pow.inPrimal_candidate a s ds as hp)
+    · exact Or.inl h0
+
+/-- [R] generalised power cone (positive exponents `al`, any dimensions): after `step_length`
+the point `z + αz·dz`, cut as `u ++ w` with `|u| = |al|`, lies in the open dual cone, and
+`s + αs·ds` in the open primal cone (squared form of C14), unless `0` was returned; and
+`0 ≤ αz, αs ≤ αmax`. -/
+theorem genpow_step_in_cone (al : List ℝ) (hal : ∀ a ∈ al, 0 < a) (dz ds z s : Array ℝ)
+    (step amin amax : ℝ) (fuel : Nat) (az as : ℝ)
+    (h : GenPow.stepLength al.toArray dz ds z s step amin amax fuel = .ok (az, as))
+    (ha : 0 ≤ amax) (hs0 : 0 ≤ step) (hs1 : step ≤ 1) :
+    (az = 0 ∨ ∀ u w, (candidate z dz az).toList = u ++ w → al.length = u.length →
+        C14.GenPowDualInterior al u w) ∧
+    (as = 0 ∨ ∀ u w, (candidate s ds as).toList = u ++ w → al.length = u.length →
+        C14.GenPowPrimalInterior al u w) ∧
+    0 ≤ az ∧ az ≤ amax ∧ 0 ≤ as ∧ as ≤ amax := by
+  obtain ⟨h1, h2⟩ := GenPow.stepLength_outcome al.toArray dz ds z s step amin amax fuel az as h
+  obtain ⟨b1, b2⟩ := h1.bounds ha hs0 hs1
+  obtain ⟨b3, b4⟩ := h2.bounds ha hs0 hs1
+  refine ⟨?_, ?_, b1, b2, b3, b4⟩
+  · rcases h1.accepted with hp | h0
+    · exact Or.inr (fun u w hx hl => GenPow.inDual_mem al _ hal hp u w hx hl)
+    · exact Or.inl h0
+  · rcases h2.accepted with hp | h0
+    · exact Or.inr (fun u w hx hl => GenPow.inPrimal_mem al _ hal hp u w hx hl)
+    · exact Or.inl h0
+
+/-- non-vacuity (exp): from `z = s = (−1, 1, 1)` (interior of both cones) with a zero
+direction the full step `αmax = 1` is accepted on both sides. -/
+example : Exp.stepLength (0, 0, 0) (0, 0, 0) (-1, 1, 1) (-1, 1, 1) (4 / 5 : ℝ) (1 / 10000) 1 1
+    = .ok (1, 1) := by
+  simp [Exp.stepLength, Nonsym.backtrackSearch, Exp.inDual, Exp.inPrimal, Vec.waxpby, v3toArray,
+    v3ofArray?, Exp.isDualFeasible, Exp.isPrimalFeasible, logsafe, bind, Except.bind, pure,
+    Except.pure]
+  norm_num
+
+/-- non-vacuity (pow, `a = 1/2`): `z = (1/2, 1/2, 0)`, `s = (1, 1, 0)`, zero direction. -/
+example : Pow.stepLength (1 / 2 : ℝ) (0, 0, 0) (0, 0, 0) (1 / 2, 1 / 2, 0) (1, 1, 0) (4 / 5)
+    (1 / 10000) 1 1 = .ok (1, 1) := by
+  simp [Pow.stepLength, Nonsym.backtrackSearch, Pow.inDual, Pow.inPrimal, Vec.waxpby, v3toArray,
+    v3ofArray?, Pow.isDualFeasible, Pow.isPrimalFeasible, logsafe, bind, Except.bind, pure,
+    Except.pure]
+  norm_num
+
+/-- non-vacuity (genpow, `al = (1/2, 1/2)`, `dim2 = 1`): all candidates are rejected
+(`u = 0` is not positive) and the failure value is returned. -/
+example : GenPow.stepLength (#[1 / 2, 1 / 2] : Array ℝ) #[0, 0, 0] #[0, 0, 0] #[0, 0, 0] #[0, 0, 0]
+    (1 / 2) 1 1 1 = .ok (0, 0) := by
+  simp [GenPow.stepLength, Nonsym.backtrackSearch, GenPow.inDual, GenPow.inPrimal, Vec.waxpby,
+    GenPow.isDualFeasible, GenPow.isPrimalFeasible, GenPow.split, bind, Except.bind, pure,
+    Except.pure]
+  norm_num
+
+/-- [R] explicit iteration bound for `backtrack_search`: for `0 < step < 1`, `αmin > 0`,
+`αinit > 0`, with `N = ⌈log(αmin/αinit)/log(step)⌉`, the search terminates within `N + 1`
+evaluations of the membership test: `N + 1` units of fuel suffice and the reported number of
+back-tracking steps is at most `N`. -/
+theorem backtrack_iteration_bound (dq q : Array ℝ) (ainit amin step : ℝ) (P : Nat → Array ℝ → Bool)
+    (h0 : 0 < step) (h1 : step < 1) (hmin : 0 < amin) (hinit : 0 < ainit) (hq : q.size = dq.size) :
+    ∃ r, backtrackSearch dq q ainit amin step P q.size
+        (⌈Real.log (amin / ainit) / Real.log step⌉₊ + 1) = .ok r ∧
+      r.2 ≤ ⌈Real.log (amin / ainit) / Real.log step⌉₊ := by
+  have hN := iter_below_amin ainit amin step h0 h1 hmin hinit
+  obtain ⟨r, hr⟩ := backtrack_fuel dq q ainit amin step P _ _ hN (le_refl _) hq
+  refine ⟨r, hr, ?_⟩
+  obtain ⟨n, hn, hrej, _⟩ := backtrack_result dq q ainit amin step P q.size _ r hr
+  rw [hn]
+  by_contra hgt
+  have := (hrej _ (not_le.mp hgt)).2
+  exact this hN
+
+/-- non-vacuity: `step = 0.8`, `αmin = 10⁻⁴`, `αinit = 1`. -/
+example : (0 : ℝ) < 4 / 5 ∧ (4 / 5 : ℝ) < 1 ∧ (0 : ℝ) < 1 / 10000 ∧ (0 : ℝ) < 1 ∧
+    (#[1, 2, 3] : Array ℝ).size = (#[0, 0, 1] : Array ℝ).size := by
+  refine ⟨by norm_num, by norm_num, by norm_num, by norm_num, rfl⟩
+
+end NonsymStep
+
+/-! ## Round 3: PSD cone (LAPACK eigenvalues as explicit inputs) -/
+section PsdStepSec
+open PsdStep PsdTri
+
+/-- [R] `step_length_psd_component` under the spectral contract (`γ` is the least eigenvalue,
+in Rayleigh form, of the matrix handed to LAPACK: `Λ^{-1/2}·mat(d)·Λ^{-1/2}` = `scaledDir`):
+the formula `α = min(αmax, −1/γ)` (`αmax` when `γ ≥ 0`) is **safe** — `0 ≤ α ≤ αmax`, the
+scaled iterate `Λ + t·mat(d)` is positive definite for every `t ∈ [0, α)` and positive
+semidefinite at `t = α` — and **tight** — `α < αmax` implies `Λ + α·mat(d)` is singular
+(`vᵀ(Λ+αD)v = 0` for some `v ≠ 0`: the step ends on the boundary of the cone). -/
+theorem psd_step_component_safe_tight (n : Nat) (lam lisqrt d : Array ℝ) (γ amax : ℝ)
+    (hd : d.size ≠ 0) (hs : ScalingOk n lam lisqrt) (hγ : IsMinEig n (scaledDir d lisqrt) γ)
+    (ham : 0 ≤ amax) :
+    ∃ a, stepLengthPsdComponent d (some γ) amax = a ∧ 0 ≤ a ∧ a ≤ amax ∧
+      (∀ t, 0 ≤ t → t < a → PosDef n (shifted lam d t)) ∧
+      PosSemidef n (shifted lam d a) ∧
+      (a < amax → ∃ v, 0 < nrm2 n v ∧ qform n (shifted lam d a) v = 0) :=
+  stepLengthPsdComponent_spec n lam lisqrt d γ amax hd hs hγ ham
+
+/-- non-vacuity: `n = 1`, `λ = 1`, `d = (−2)`: `γ = −2`, the step is `1/2 < αmax = 1`. -/
+example : (#[-2] : Array ℝ).size ≠ 0 ∧ ScalingOk 1 #[1] #[1] ∧
+    IsMinEig 1 (scaledDir #[-2] #[1]) (-2) := by
+  refine ⟨by simp, ?_, ?_, ?_⟩
+  · intro i hi
+    have : i = 0 := by omega
+    subst this
+    simp
+  · intro v
+    simp [nrm2, qform, scaledDir, svecToMat, PsdIndex.triangularNumber]
+    linarith
+  · refine ⟨fun _ => 1, ?_, ?_⟩
+    · simp [nrm2]
+    · simp [nrm2, qform, scaledDir, svecToMat, PsdIndex.triangularNumber]
+
+/-- [S] the two non-spectral outcomes of `step_length_psd_component`: an empty direction
+returns `αmax`; a LAPACK failure (repaired code) returns the zero step. -/
+theorem psd_step_component_edge {β : Type} [Mul β] [Div β] [Neg β] [OfNat β 0] [OfNat β 1]
+    [LT β] [DecidableLT β] [FloatLike β] (d : Array β) (γ : Option β) (amax : β) :
+    (d.size = 0 → stepLengthPsdComponent d γ amax = amax) ∧
+    (d.size ≠ 0 → γ = none → stepLengthPsdComponent d γ amax = 0) :=
+  stepLengthPsdComponent_edge d γ amax
+
+/-- [S] `PSDTriangleCone::step_length` is the component formula applied to `W·Δz`
+(`mul_W(N, ·)`) and to `W⁻ᵀ·Δs` (`mul_Winv(T, ·)`), with the two LAPACK answers. -/
+theorem psd_step_length_components {β : Type} [Add β] [Mul β] [Sub β] [Div β] [Neg β] [OfNat β 0]
+    [OfNat β 1] [LT β] [DecidableLT β] [FloatLike β] (K : PsdTri.Cone β) (dz ds : Array β)
+    (γz γs : Option β) (amax : β) (r : β × β)
+    (h : PsdStep.stepLength K dz ds γz γs amax = .ok r) :
+    ∃ dzW dsW, mulW K false dz dz 1 0 = .ok dzW ∧ mulWinv K true ds ds 1 0 = .ok dsW ∧
+      r = (stepLengthPsdComponent dzW γz amax, stepLengthPsdComponent dsW γs amax) := by
+  unfold PsdStep.stepLength at h
+  unfold mulW mulWinv
+  cases h1 : mulWx false K.n K.R dz dz 1 0 with
+  | error e => rw [h1] at h; cases h
+  | ok dzW =>
+    cases h2 : mulWx true K.n K.Rinv ds ds 1 0 with
+    | error e => rw [h1, h2] at h; cases h
+    | ok dsW =>
+      rw [h1, h2] at h
+      simp only [bind, Except.bind, pure, Except.pure, Except.ok.injEq] at h
+      exact ⟨dzW, dsW, rfl, rfl, h.symm⟩
+
+/-- [R] the whole `PSDTriangleCone::step_length` under the spectral contract for both LAPACK
+answers (`γz` for `Λ^{-1/2}·mat(W·Δz)·Λ^{-1/2}`, `γs` for `Λ^{-1/2}·mat(W⁻ᵀ·Δs)·Λ^{-1/2}`): both
+returned steps satisfy `StepSpec` — in `[0, αmax]`, the scaled iterate `Λ + t·D̃` positive
+definite on `[0, α)`, positive semidefinite at `α`, and singular at `α` when `α < αmax`. -/
+theorem psd_step_length_safe_tight (K : PsdTri.Cone ℝ) (dz ds : Array ℝ) (γz γs amax : ℝ)
+    (r : ℝ × ℝ) (h : PsdStep.stepLength K dz ds (some γz) (some γs) amax = .ok r) (hn : 0 < K.n)
+    (hs : ScalingOk K.n K.lam K.lamIsqrt) (ham : 0 ≤ amax)
+    (hγz : ∀ d, mulW K false dz dz 1 0 = .ok d → IsMinEig K.n (scaledDir d K.lamIsqrt) γz)
+    (hγs : ∀ d, mulWinv K true ds ds 1 0 = .ok d → IsMinEig K.n (scaledDir d K.lamIsqrt) γs) :
+    ∃ dzW dsW, mulW K false dz dz 1 0 = .ok dzW ∧ mulWinv K true ds ds 1 0 = .ok dsW ∧
+      StepSpec K.n K.lam dzW amax r.1 ∧ StepSpec K.n K.lam dsW amax r.2 :=
+  PsdStep.stepLength_spec K dz ds γz γs amax r h hn hs ham hγz hγs
+
+/-- non-vacuity: the `1 × 1` cone with `λ = R = R⁻¹ = 1`, `Δz = (−2)`, `Δs = (−2)`: both scaled
+directions are `(−2)` with least eigenvalue `−2`, and the steps are `(1/2, 1/2)`. -/
+example : (∃ r, PsdStep.stepLength (⟨1, #[1], #[1], #[1], #[1], #[]⟩ : PsdTri.Cone ℝ) #[-2] #[-2]
+      (some (-2)) (some (-2)) 1 = .ok r) ∧
+    (∀ d, mulW (⟨1, #[1], #[1], #[1], #[1], #[]⟩ : PsdTri.Cone ℝ) false #[-2] #[-2] 1 0 = .ok d →
+      d = #[-2]) ∧
+    (∀ d, mulWinv (⟨1, #[1], #[1], #[1], #[1], #[]⟩ : PsdTri.Cone ℝ) true #[-2] #[-2] 1 0 = .ok d →
+      d = #[-2]) := by
+  refine ⟨?_, ?_, ?_⟩
+  · simp [PsdStep.stepLength, mulWx, sizeGuard, PsdIndex.triangularNumber, bind, Except.bind, pure,
+      Except.pure]
+  · intro d h
+    simp [mulW, mulWx, sizeGuard, PsdIndex.triangularNumber, mulWxInner, matToSvec, packed, gemm, mm,
+      tr, matOf, svecToMat, sumN, isZero, bind, Except.bind, pure, Except.pure] at h
+    exact h.symm
+  · intro d h
+    simp [mulWinv, mulWx, sizeGuard, PsdIndex.triangularNumber, mulWxInner, matToSvec, packed, gemm,
+      mm, tr, matOf, svecToMat, sumN, isZero, bind, Except.bind, pure, Except.pure] at h
+    exact h.symm
+
+/-- [R] `margins` of a non-empty PSD block as the code computes them from the eigenvalues
+`e` LAPACK returned: `α` is the least entry of `e` and `β = Σ max(eᵢ, 0)`. -/
+theorem psd_margins_formula (z e : Array ℝ) (hz : z.size ≠ 0) (he : e.size ≠ 0) :
+    ∃ m, PsdStep.margins z (some e) = .ok (some m, (e.toList.map (fun x => max x 0)).sum) ∧
+      m ∈ e.toList ∧ ∀ x ∈ e.toList, m ≤ x :=
+  PsdStep.margins_spec z e hz he
+
+/-- [R] PSD `scaled_unit_shift`: under the spectral contract for `mat(z)` the shift by `a`
+succeeds and increases the margin (least eigenvalue) by **exactly** `a`. -/
+theorem psd_shift_margin_exact (n : Nat) (z : Array ℝ) (a γ : ℝ)
+    (hz : z.size = PsdIndex.triangularNumber n) (hγ : IsMinEig n (svecToMat z) γ) :
+    ∃ z', PsdIndex.scaledUnitShift n z a = .ok z' ∧ z'.size = PsdIndex.triangularNumber n ∧
+      IsMinEig n (svecToMat z') (γ + a) :=
+  PsdStep.shift_margin n z a γ hz hγ
+
+/-- non-vacuity: `n = 1`, `z = (3)`: least eigenvalue `3`. -/
+example : (#[3] : Array ℝ).size = PsdIndex.triangularNumber 1 ∧ IsMinEig 1 (svecToMat #[3]) 3 := by
+  refine ⟨rfl, ?_, fun _ => 1, ?_, ?_⟩
+  · intro v
+    simp [nrm2, qform, svecToMat, PsdIndex.triangularNumber]
+    linarith
+  · simp [nrm2]
+  · simp [nrm2, qform, svecToMat, PsdIndex.triangularNumber]
+
+end PsdStepSec
+
+/-! ## Round 3: composite cone with PSD blocks / nonsymmetric cones -/
+section CompRound3
+open Composite
+
+/-- [R] `_shift_to_cone_interior` on a composite of arbitrarily many zero / nonnegative /
+second-order / **PSD** cones, for any vector `z` long enough, the PSD margins being computed
+from supplied eigenvalue lists under the spectral contract (`EigContracts`: one entry per
+cone; for every non-empty PSD block the list is non-empty and its least entry is a lower
+Rayleigh bound of `mat(z_block)`): the call succeeds and in the result every block has
+margin `≥ 1 > 0` — for a PSD block `mat(z') − I ⪰ 0` (`BlkGeE`). -/
+theorem shift_to_cone_interior_margin_psd (specs : List Composite.Spec) (z : Array ℝ)
+    (primal : Bool) (eigs : List (Option (Array ℝ)))
+    (hs : ∀ sp ∈ specs, Composite.SymSpecE sp) (hlen : Composite.totalNumel specs ≤ z.size)
+    (hc : Composite.EigContracts specs z eigs) :
+    ∃ z', Composite.shiftToConeInteriorE specs z primal eigs = .ok z' ∧
+      Composite.BlocksGeE specs z' 1 :=
+  Composite.shiftToConeInteriorE_spec specs z primal eigs hs hlen hc
+
+/-- non-vacuity: an NN cone and a `1 × 1` PSD cone with `z = (−1, 2 | −3)`, eigenvalue list
+`(−3)` for the PSD block. -/
+example : (∀ sp ∈ [Composite.Spec.nonneg 2, .psd 1], Composite.SymSpecE sp) ∧
+    Composite.totalNumel [.nonneg 2, .psd 1] ≤ (#[-1, 2, -3] : Array ℝ).size ∧
+    Composite.EigContracts [.nonneg 2, .psd 1] (#[-1, 2, -3] : Array ℝ) [none, some #[-3]] := by
+  refine ⟨?_, by simp [Composite.totalNumel, Composite.Spec.numel, PsdIndex.triangularNumber], rfl, ?_⟩
+  · intro sp hsp
+    simp only [List.mem_cons, List.not_mem_nil, or_false] at hsp
+    rcases hsp with rfl | rfl <;> simp [Composite.SymSpecE]
+  · intro parts hparts pe hpe
+    simp [Composite.cut, Composite.cutL, Composite.Spec.numel, PsdIndex.triangularNumber, bind,
+      Except.bind, pure, Except.pure] at hparts
+    subst hparts
+    simp only [List.zip_cons_cons, List.zip_nil_right, List.mem_cons, List.not_mem_nil,
+      or_false] at hpe
+    rcases hpe with rfl | rfl
+    · trivial
+    · intro _
+      refine ⟨#[-3], rfl, by simp, -3, by simp, by simp, ?_⟩
+      intro v
+      simp [PsdStep.nrm2, PsdStep.qform, PsdTri.svecToMat, PsdIndex.triangularNumber]
+      linarith
+
+/-- [F] `CompositeCone::step_length` over **arbitrary** constituent cones (symmetric caps,
+PSD, back-tracking nonsymmetric cones — no closed form assumed): both components are the
+same `m`; `m ≤ αmax`; `m ≤ max_step_fraction` as soon as one cone is nonsymmetric; and every
+cone was asked with some `a' ≤ αmax` and answered a pair `(αz, αs)` with `m ≤ αz`, `m ≤ αs`,
+`m ≤ a'` — the composite step is a lower bound of every cone's own answer (minimum over the
+cones). -/
+theorem composite_step_general {α : Type} [Field α] [LinearOrder α] [IsStrictOrderedRing α]
+    [FloatLike α] [LawfulFloatLike α] (cones : List (ConeFn α)) (msf amax : α) (r : α × α)
+    (h : stepLength cones msf amax = .ok r) :
+    r.1 = r.2 ∧ r.1 ≤ amax ∧ (cones.all (·.symmetric) = false → r.1 ≤ msf) ∧
+      ∀ c ∈ cones, ∃ a' rc, a' ≤ amax ∧ c.stepLength a' = .ok rc ∧ r.1 ≤ rc.1 ∧ r.1 ≤ rc.2 ∧
+        r.1 ≤ a' :=
+  stepLength_general cones msf amax r h
+
+/-- [F] order of processing, part 1: when every cone's step length is a cap
+`αin ↦ (min αin cz, min αin cs)` (zero, NN, SOC, PSD), running the symmetric cones first (as
+the source comments say) or the nonsymmetric ones first (as the code does) gives the same
+step. -/
+theorem composite_order_irrelevant_for_caps {α : Type} [Field α] [LinearOrder α]
+    [IsStrictOrderedRing α] [FloatLike α] [LawfulFloatLike α]
+    (caps : ConeFn α → α × α) (cones : List (ConeFn α)) (msf amax : α)
+    (h : ∀ c ∈ cones, ∀ a, c.stepLength a = .ok (min a (caps c).1, min a (caps c).2)) :
+    stepLengthSymFirst cones msf amax = stepLength cones msf amax :=
+  order_irrelevant_caps caps cones msf amax h
+
+/-- [R] order of processing, part 2 (counterexample): with a back-tracking cone the order
+**does** change the result.  `exSym` is a symmetric cone with cap `1/2`; `exNonsym` a
+nonsymmetric cone searched by the model's `backtrack_search` (`step = 4/5`), feasible iff
+`α ≤ 9/20`.  The code (nonsymmetric first) returns `(4/5)⁴ = 256/625`, "symmetric first"
+returns `(1/2)(4/5) = 2/5`; both are feasible for both cones, neither is the largest
+feasible step `9/20`. -/
+theorem composite_order_matters :
+    stepLength [exSym, exNonsym] (99 / 100) 1 = .ok (256 / 625, 256 / 625) ∧
+    stepLengthSymFirst [exSym, exNonsym] (99 / 100) 1 = .ok (2 / 5, 2 / 5) := by
+  constructor
+  · have e1 : inner [exSym, exNonsym] true 1 = .ok (256 / 625 : ℝ) := by
+      simp only [inner, List.foldlM_cons, List.foldlM_nil, exSym, beq_self_eq_true, ↓reduceIte,
+        pure, Except.pure, bind, Except.bind]
+      rw [show exNonsym.symmetric = false from rfl, exNonsym_from_one]
+      simp only [Bool.false_eq_true, beq_iff_eq, ↓reduceIte]
+      show Except.ok (min (1 : ℝ) (min (256 / 625) (256 / 625))) = _
+      norm_num
+    have e2 : inner [exSym, exNonsym] false (min (99 / 100) (256 / 625) : ℝ) = .ok (256 / 625 : ℝ) := by
+      simp only [inner, List.foldlM_cons, List.foldlM_nil, exSym, pure, Except.pure, bind,
+        Except.bind]
+      rw [show exNonsym.symmetric = false from rfl]
+      simp only [Bool.true_eq_false, beq_iff_eq, ↓reduceIte, beq_self_eq_true]
+      show Except.ok (min (min (99 / 100 : ℝ) (256 / 625))
+        (min (min (min (99 / 100 : ℝ) (256 / 625)) (1 / 2)) (min (min (99 / 100 : ℝ) (256 / 625)) (1 / 2)))) = _
+      norm_num
+    simp only [stepLength, e1, bind, Except.bind, pure, Except.pure]
+    have : ([exSym, exNonsym].all (·.symmetric)) = false := rfl
+    rw [this]
+    simp only [Bool.not_false, ↓reduceIte]
+    have hf : (fmin (99 / 100) (256 / 625) : ℝ) = min (99 / 100) (256 / 625) := rfl
+    rw [hf, e2]
+  · have e1 : inner [exSym, exNonsym] false 1 = .ok (1 / 2 : ℝ) := by
+      simp only [inner, List.foldlM_cons, List.foldlM_nil, exSym, pure, Except.pure, bind,
+        Except.bind]
+      rw [show exNonsym.symmetric = false from rfl]
+      simp only [Bool.true_eq_false, beq_iff_eq, ↓reduceIte, beq_self_eq_true]
+      show Except.ok (min (1 : ℝ) (min (min 1 (1 / 2)) (min 1 (1 / 2)))) = _
+      norm_num
+    have e2 : inner [exSym, exNonsym] true (min (99 / 100) (1 / 2) : ℝ) = .ok (2 / 5 : ℝ) := by
+      have hh : (min (99 / 100) (1 / 2) : ℝ) = 1 / 2 := by norm_num
+      rw [hh]
+      simp only [inner, List.foldlM_cons, List.foldlM_nil, exSym, beq_self_eq_true, ↓reduceIte,
+        pure, Except.pure, bind, Except.bind]
+      rw [show exNonsym.symmetric = false from rfl, exNonsym_from_half]
+      simp only [Bool.false_eq_true, beq_iff_eq, ↓reduceIte]
+      show Except.ok (min (1 / 2 : ℝ) (min (2 / 5) (2 / 5))) = _
+      norm_num
+    simp only [stepLengthSymFirst, e1, bind, Except.bind, pure, Except.pure]
+    have : ([exSym, exNonsym].all (·.symmetric)) = false := rfl
+    rw [this]
+    simp only [Bool.not_false, ↓reduceIte]
+    have hf : (fmin (99 / 100) (1 / 2) : ℝ) = min (99 / 100) (1 / 2) := rfl
+    rw [hf, e2]
+
+end CompRound3
+
+/-! ## Round 3: shorter steps stay in the nonsymmetric cones (convexity) -/
+section NonsymConvex
+open Backtrack Nonsym Composite
+
+/-- [R] exponential cone, safety of every shorter step: from interior points `z ∈ int K*`,
+`s ∈ int K`, after `step_length` returned `(αz, αs)` the whole segments
+`z + t·dz` (`0 ≤ t ≤ αz`) and `s + t·ds` (`0 ≤ t ≤ αs`) stay in the open cones (the open
+exponential cone and its dual are convex; proved from the convexity of `exp`). -/
+theorem exp_step_safe_below (dz ds z s : V3 ℝ) (step amin amax : ℝ) (fuel : Nat) (az as : ℝ)
+    (h : Exp.stepLength dz ds z s step amin amax fuel = .ok (az, as))
+    (hz : C14.ExpDualInterior z.1 z.2.1 z.2.2) (hs : C14.ExpPrimalInterior s.1 s.2.1 s.2.2) :
+    (∀ t, 0 ≤ t → t ≤ az →
+      C14.ExpDualInterior (z.1 + t * dz.1) (z.2.1 + t * dz.2.1) (z.2.2 + t * dz.2.2)) ∧
+    (∀ t, 0 ≤ t → t ≤ as →
+      C14.ExpPrimalInterior (s.1 + t * ds.1) (s.2.1 + t * ds.2.1) (s.2.2 + t * ds.2.2)) := by
+  obtain ⟨h1, h2⟩ := Exp.stepLength_outcome dz ds z s step amin amax fuel az as h
+  constructor
+  · intro t ht0 ht
+    rcases h1.accepted with hp | h0
+    · exact C15Convex.expDual_ray hz (Exp.inDual_candidate z dz az hp) ht0 ht
+    · have : t = 0 := by rw [h0] at ht; linarith
+      subst this; simpa using hz
+  · intro t ht0 ht
+    rcases h2.accepted with hp | h0
+    · exact C15Convex.expPrimal_ray hs (Exp.inPrimal_candidate s ds as hp) ht0 ht
+    · have : t = 0 := by rw [h0] at ht; linarith
+      subst this; simpa using hs
+
+/-- [R] power cone (`0 < a < 1`), safety of every shorter step (the open power cone and its
+dual are convex; proved from the weighted AM–GM inequality). -/
+theorem pow_step_safe_below {a : ℝ} (ha0 : 0 < a) (ha1 : a < 1) (dz ds z s : V3 ℝ)
+    (step amin amax : ℝ) (fuel : Nat) (az as : ℝ)
+    (h : Pow.stepLength a dz ds z s step amin amax fuel = .ok (az, as))
+    (hz : C14.PowDualInterior a z.1 z.2.1 z.2.2) (hs : C14.PowPrimalInterior a s.1 s.2.1 s.2.2) :
+    (∀ t, 0 ≤ t → t ≤ az →
+      C14.PowDualInterior a (z.1 + t * dz.1) (z.2.1 + t * dz.2.1) (z.2.2 + t * dz.2.2)) ∧
+    (∀ t, 0 ≤ t → t ≤ as →
+      C14.PowPrimalInterior a (s.1 + t * ds.1) (s.2.1 + t * ds.2.1) (s.2.2 + t * ds.2.2)) := by
+  obtain ⟨h1, h2⟩ := Pow.stepLength_outcome a dz ds z s step amin amax fuel az as h
+  constructor
+  · intro t ht0 ht
+    rcases h1.accepted with hp | h0
+    · exact C15Convex.powDual_ray ha0 ha1 hz (Pow.inDual_candidate ha0 ha1 z dz az hp) ht0 ht
+    · have : t = 0 := by rw [h0] at ht; linarith
+      subst this; simpa using hz
+  · intro t ht0 ht
+    rcases h2.accepted with hp | h0
+    · exact C15Convex.powPrimal_ray ha0 ha1 hs (Pow.inPrimal_candidate a s ds as hp) ht0 ht
+    · have : t = 0 := by rw [h0] at ht; linarith
+      subst this; simpa using hs
+
+/-- non-vacuity: `(−1, 1, 1)` is interior to the exponential cone and to its dual;
+`(1/2, 1/2, 0)` to the dual and `(1, 1, 0)` to the primal power cone with `a = 1/2`. -/
+example : C14.ExpDualInterior (-1) 1 1 ∧ C14.ExpPrimalInterior (-1) 1 1 ∧
+    C14.PowDualInterior (1 / 2) (1 / 2) (1 / 2) 0 ∧ C14.PowPrimalInterior (1 / 2) 1 1 0 := by
+  refine ⟨⟨by norm_num, by norm_num, ?_⟩, ⟨by norm_num, by norm_num, ?_⟩,
+    ⟨by norm_num, by norm_num, ?_⟩, ⟨by norm_num, by norm_num, ?_⟩⟩
+  · have : Real.exp (1 / -1 - 1) < 1 := Real.exp_lt_one_iff.mpr (by norm_num)
+    linarith
+  · have : Real.exp (-1 / 1) < 1 := Real.exp_lt_one_iff.mpr (by norm_num)
+    linarith
+  · norm_num
+  · norm_num
+
+/-- [R] composite safety for an exponential-cone block: if the composite `step_length`
+returned `m ≥ 0` and one of its cones is an exponential cone started at interior points
+`(z, s)`, then `z + m·dz ∈ int K*` and `s + m·ds ∈ int K` — although the composite may have
+shortened the step *after* the cone's own back-tracking search (the nonsymmetric cones are
+processed first), the shortened step is still inside the cone. -/
+theorem composite_exp_block_safe (cones : List (ConeFn ℝ)) (msf amax : ℝ) (r : ℝ × ℝ)
+    (h : stepLength cones msf amax = .ok r) (c : ConeFn ℝ) (hc : c ∈ cones)
+    (dz ds z s : V3 ℝ) (step amin : ℝ) (fuel : Nat)
+    (hstep : ∀ a, c.stepLength a = Exp.stepLength dz ds z s step amin a fuel)
+    (hz : C14.ExpDualInterior z.1 z.2.1 z.2.2) (hs : C14.ExpPrimalInterior s.1 s.2.1 s.2.2)
+    (h0 : 0 ≤ r.1) :
+    C14.ExpDualInterior (z.1 + r.1 * dz.1) (z.2.1 + r.1 * dz.2.1) (z.2.2 + r.1 * dz.2.2) ∧
+    C14.ExpPrimalInterior (s.1 + r.1 * ds.1) (s.2.1 + r.1 * ds.2.1) (s.2.2 + r.1 * ds.2.2) := by
+  obtain ⟨_, _, _, hall⟩ := stepLength_general cones msf amax r h
+  obtain ⟨a', rc, _, hrc, g1, g2, _⟩ := hall c hc
+  rw [hstep a'] at hrc
+  obtain ⟨k1, k2⟩ := exp_step_safe_below dz ds z s step amin a' fuel rc.1 rc.2 hrc hz hs
+  exact ⟨k1 r.1 h0 g1, k2 r.1 h0 g2⟩
+
+/-- [R] composite safety for a power-cone block (`0 < a < 1`): the same statement. -/
+theorem composite_pow_block_safe {a : ℝ} (ha0 : 0 < a) (ha1 : a < 1) (cones : List (ConeFn ℝ))
+    (msf amax : ℝ) (r : ℝ × ℝ) (h : stepLength cones msf amax = .ok r) (c : ConeFn ℝ)
+    (hc : c ∈ cones) (dz ds z s : V3 ℝ) (step amin : ℝ) (fuel : Nat)
+    (hstep : ∀ t, c.stepLength t = Pow.stepLength a dz ds z s step amin t fuel)
+    (hz : C14.PowDualInterior a z.1 z.2.1 z.2.2) (hs : C14.PowPrimalInterior a s.1 s.2.1 s.2.2)
+    (h0 : 0 ≤ r.1) :
+    C14.PowDualInterior a (z.1 + r.1 * dz.1) (z.2.1 + r.1 * dz.2.1) (z.2.2 + r.1 * dz.2.2) ∧
+    C14.PowPrimalInterior a (s.1 + r.1 * ds.1) (s.2.1 + r.1 * ds.2.1) (s.2.2 + r.1 * ds.2.2) := by
+  obtain ⟨_, _, _, hall⟩ := stepLength_general cones msf amax r h
+  obtain ⟨a', rc, _, hrc, g1, g2, _⟩ := hall c hc
+  rw [hstep a'] at hrc
+  obtain ⟨k1, k2⟩ := pow_step_safe_below ha0 ha1 dz ds z s step amin a' fuel rc.1 rc.2 hrc hz hs
+  exact ⟨k1 r.1 h0 g1, k2 r.1 h0 g2⟩
+
+/-- non-vacuity of the composite hypotheses: a one-cone composite made of the exponential
+cone at `z = s = (−1, 1, 1)` with zero directions returns `min(max_step_fraction, αmax)`. -/
+example : stepLength [(⟨false, fun a => Exp.stepLength (0, 0, 0) (0, 0, 0) (-1, 1, 1) (-1, 1, 1)
+    (4 / 5 : ℝ) (1 / 10000) a 1⟩ : ConeFn ℝ)] (99 / 100) 1 = .ok (99 / 100, 99 / 100) := by
+  have e : ∀ a : ℝ, Exp.stepLength (0, 0, 0) (0, 0, 0) (-1, 1, 1) (-1, 1, 1) (4 / 5 : ℝ) (1 / 10000) a 1
+      = .ok (a, a) := by
+    intro a
+    simp [Exp.stepLength, Nonsym.backtrackSearch, Exp.inDual, Exp.inPrimal, Vec.waxpby, v3toArray,
+      v3ofArray?, Exp.isDualFeasible, Exp.isPrimalFeasible, logsafe, bind, Except.bind, pure,
+      Except.pure]
+    norm_num
+  simp only [stepLength, inner, List.foldlM_cons, List.foldlM_nil, e, bind, Except.bind, pure,
+    Except.pure, List.all_cons, List.all_nil]
+  norm_num [FloatLike.fmin]
+
+end NonsymConvex
 
 end Clarabel.C15
